@@ -68,6 +68,14 @@ def scenarios(family: str, quick: bool) -> list[cw.Scenario]:
                             name=f"cc|{path}|{''.join(order)}|{nrun}", family=family, mode=mode,
                             reroute_on_cc=reroute, keys=keys, outcomes=outcomes, max_retries=2,
                             setup=[("client", "c1", subs)], actors=actors, granularity="call"))
+    # submissions racing the runners: an invocation must not be deliverable before concurrency control can see it
+    for mode in ("args", "keys"):
+        for path in ("single", "batch"):
+            first = [("batch", ["i1"])] if path == "batch" else [("single", "i1")]
+            out.append(cw.Scenario(
+                name=f"cc-live|{path}|i1i2|2", family=family, mode=mode, reroute_on_cc=True, keys={"i1": "A", "i2": "A"},
+                actors=[("client", "c1", first), ("client", "c2", [("single", "i2")]),
+                        ("poller", "r1", 1, {"rounds": 3}), ("poller", "r2", 1, {"rounds": 3})], granularity="call"))
     return out
 
 
@@ -125,10 +133,16 @@ def run(ctx: Ctx) -> None:
             if ctx.quick and fam == "sql" and scn.name.split("|")[2] != "i1i2i3":
                 continue        # quick tier: the SQLite family runs the first arrival order only
             cap = (120 if fam == "mem" else 25) if ctx.quick else 2500
+            if scn.name.startswith("cc-live"):
+                cap = (400 if fam == "mem" else 150) if ctx.quick else 6000
             jobs.append({"scn": cc.scn_dict(scn), "mode": "dfs", "preemptions": pre if nrun == 1 else pre + 1,
                          "max_exec": cap})
             jobs.append({"scn": cc.scn_dict(scn), "mode": "seeds",
                          "seeds": [ctx.seed + k for k in range(2 if ctx.quick else 25)]})
+            if scn.name.startswith("cc-live"):
+                # every actor delayed at each of its backend calls while the others run to completion
+                jobs.append({"scn": cc.scn_dict(scn), "mode": "park",
+                             "second": {"first_roles": ["c"], "second_roles": ["w"]}})
     results = cc.run_jobs(jobs + model_jobs)
     for r in results:
         if r["how"].get("mode") == "model":
